@@ -167,6 +167,7 @@ class Obj(object):
         self.relocs = []         # (sec, off, sym, addend, type, symsec)
         self.erefs = []          # (sec, insaddr, size, kind, off, sym, addend, rtype, symsec, opcode)
         self.local_calls = []    # (sec, insaddr, target)
+        self.contents = {}       # secidx -> bytes (allocated non-text, non-bss sections)
         self._ins = None
         self.order = {}
         self.bad = set()
@@ -205,6 +206,8 @@ class Obj(object):
                     self.erefs.append((int(f[1]), int(f[2]), int(f[3]), f[4], int(f[5]), sym, int(add), rtype, int(ssec), f[7]))
                 elif t == "T":
                     self.local_calls.append((int(f[1]), int(f[2]), int(f[3])))
+                elif t == "C":
+                    self.contents[int(f[1])] = bytes.fromhex(f[2])
         self.text_secs = [k for k, v in self.sections.items() if "T" in v["flags"]]
         self.symtab = {}
         for s in self.symbols:
@@ -312,6 +315,18 @@ class Obj(object):
             go, gs = lib.globals[name]
             return (go, gs.sec, gs.addr + c, name, go.sections.get(gs.sec))
         return None
+
+    def initial_bytes(self, sec, addr, n):
+        """Initial contents of n bytes at (sec, addr): bytes for initialised data, zeros for .bss, None if unknown."""
+        sx = self.sections.get(sec)
+        if sx is None:
+            return None
+        if "B" in sx["flags"]:
+            return bytes(n)
+        c = self.contents.get(sec)
+        if c is None or addr + n > len(c):
+            return None
+        return c[addr:addr + n]
 
     def _name_at(self, sec, addr):
         """Named data symbol covering (sec, addr): exact match first, else the nearest preceding symbol."""
